@@ -79,7 +79,7 @@ Section Valid.
     intros [= <-]. simpl.
     assert (Hall : forall q, In q all -> valid d q = true).
     { eapply concat_res_vok; [|exact E]. intros p r Hp Hr q Hq. unfold step_from in Hr.
-      destruct (resolve_test en t) as [rt|]; [|discriminate].
+      destruct (resolve_test en a t) as [rt|]; [|discriminate].
       eapply apply_preds_incl in Hq; [|exact Hr]. apply filter_In in Hq. destruct Hq as [Hq _].
       eapply (select_valid d Hord); [|exact Hq]. apply Hv. exact Hp. }
     intros q Hq. apply Hall. destruct l; [now apply cleanup_forward_incl in Hq|].
